@@ -142,7 +142,7 @@ Definition ghost_matches (h : list op) (s : state) : bool :=
 
 (* walk the history with the model state alongside (only to evaluate the informer discipline);
    every snapshot up to the first operation outside the discipline must satisfy the property *)
-Fixpoint check_steps (fuel : nat) (s : state) (done rest : list op) (obs : list Z) : Z :=
+Fixpoint check_steps (fuel : nat) (sh0 : list qshape) (s : state) (done rest : list op) (obs : list Z) : Z :=
   match fuel, rest with
   | S f, o :: t =>
       if wf_op s o then
@@ -153,8 +153,11 @@ Fixpoint check_steps (fuel : nat) (s : state) (done rest : list op) (obs : list 
             let s' := step s o in
             let '(snap, leak, obs') := dec_snapshot h obs in
             let c := if negb (ghost_matches h s') then 97
-                     else if leak =? 0 then state_code snap else 13 in   (* 13: the mask was not applied *)
-            if c =? 0 then check_steps f s' h t obs' else c
+                     else if negb (leak =? 0) then 13                       (* the mask was not applied *)
+                     else if negb (shapes_eqb (st_sh snap) (spec_shapes sh0 h)) then 14
+                          (* 14: a reported quota attribute is not that of the last delivered object *)
+                     else state_code snap in
+            if c =? 0 then check_steps f sh0 s' h t obs' else c
         end
       else 0
   | _, _ => 0
